@@ -60,6 +60,37 @@ type Derived struct {
 	AccHist   int `json:"accHist"` // accounts_metadata rows
 	TxHist    int `json:"txHist"`  // transactions_metadata rows
 	Blocks    int `json:"blocks"`
+	// content digests of the derived tables (rows without their `ledger` column): a derived table
+	// may depend on its own feature(s) only
+	MovesDigest   string `json:"movesDigest"`
+	HashesDigest  string `json:"hashesDigest"`
+	AccHistDigest string `json:"accHistDigest"`
+	TxHistDigest  string `json:"txHistDigest"`
+}
+
+func rowsDigest(rows []map[string]any, cols ...string) string {
+	out := make([]map[string]any, 0, len(rows))
+	for _, r := range rows {
+		cp := map[string]any{}
+		for k, v := range r {
+			if k == "ledger" {
+				continue
+			}
+			if len(cols) > 0 {
+				keep := false
+				for _, c := range cols {
+					keep = keep || c == k
+				}
+				if !keep {
+					continue
+				}
+			}
+			cp[k] = v
+		}
+		out = append(out, cp)
+	}
+	b, _ := json.Marshal(out)
+	return hashDump(b)
 }
 
 type FeatSetOut struct {
@@ -111,6 +142,10 @@ func derivedOf(d RawDump) Derived {
 	ret.AccHist = len(rowsOf(d, "accounts_metadata"))
 	ret.TxHist = len(rowsOf(d, "transactions_metadata"))
 	ret.Blocks = len(rowsOf(d, "logs_blocks"))
+	ret.MovesDigest = rowsDigest(moves)
+	ret.HashesDigest = rowsDigest(logs, "id", "hash")
+	ret.AccHistDigest = rowsDigest(rowsOf(d, "accounts_metadata"))
+	ret.TxHistDigest = rowsDigest(rowsOf(d, "transactions_metadata"))
 	return ret
 }
 
